@@ -604,6 +604,11 @@ func (s *LinearState) Delete(ctx *Context) error {
 		return err
 	}
 	err := s.store.Delete(ctx, s.Name)
+	if err != nil {
+		// As in Clear: the facts are still stored, so they are
+		// still ours.
+		return err
+	}
 	s.Facts = make(map[string]RawFact)
 	s.uncacheRules()
 	return err
